@@ -39,7 +39,7 @@ def qnorm_le_one_hook(nrot_names):
         sq = Poly()
         for n in nrot_names:
             sq = sq + Poly.var(n) * Poly.var(n)
-        key = ("norm", sq.key())
+        key = ("sqrt", sq.key())
         name = poly.R.atoms.get(key)
         if name is None:
             return None
@@ -120,6 +120,7 @@ def laws(cls):
         require_same(Arr(list(got.data), 1), Arr(exp, 1), "pose (+) point != R x + t")
         if cls in ("PoseSE2", "PoseSE3"):
             raw = sym_vec("x", len(pt.data))
+            raw.foreign_dtype = True         # the caller's array: its dtype is the caller's choice (float64, an integer type, float32)
             got2 = add(it, a, raw)
             if not isinstance(got2, Pose) or got2.cls != POINT_OF[cls]:
                 raise ObFail("pose (+) bare ndarray point returns %r, expected a %s" % (got2, POINT_OF[cls]))
@@ -163,6 +164,31 @@ def laws(cls):
         pose_equal(it, b, b0, "`p += delta` modified the original pose object in place (operators must build new objects)", allow_neg_quat=False)
         return dict(terms=nterms(e2))
 
+    def law_current_value(it):
+        # the operations are functions of the pose's *current* numbers: after the caller edits a pose in place (p[3:] = q,
+        # p[:2] += t, ...) every operation must answer for the new value, whatever was computed from the old one before
+        a, b = abc(it, 2)
+        pt = sym_pose(POINT_OF[cls], "x")
+        cc = sym_pose(cls, "c", unit=True)
+        # use the pose once (anything computed now must not be served again later)
+        if it.pkg.lookup(cls, "to_matrix"):
+            it.call_method(a, "to_matrix", [])
+        add(it, a, pt)
+        add(it, a, cc)
+        it.call_method(a, "inverse", [])
+        a.data[:] = list(b.data)           # in-place edit by the caller
+        it.after_write(a)
+        R, t = ref_R_t(it, b)
+        if it.pkg.lookup(cls, "to_matrix"):
+            require_same(it.call_method(a, "to_matrix", []), ref_matrix(it, b), "after an in-place edit of the pose, to_matrix() still describes the old value")
+        got = add(it, a, pt)
+        require_same(Arr(list(got.data), 1), Arr([u + v for u, v in zip(matvec(R, list(pt.data)), t)], 1),
+                     "after an in-place edit of the pose, pose (+) point uses the old value")
+        pose_equal(it, add(it, a, cc), add(it, b, cc), "after an in-place edit of the pose, pose (+) pose uses the old value", allow_neg_quat=False)
+        pose_equal(it, it.call_method(a, "inverse", []), it.call_method(b, "inverse", []), "after an in-place edit of the pose, inverse uses the old value",
+                   allow_neg_quat=False)
+        return dict(terms=nterms(got))
+
     def law_accessors(it):
         a, = abc(it, 1)
         R, t = ref_R_t(it, a)
@@ -197,7 +223,8 @@ def laws(cls):
 
     out = [("M(a+b)=M(a)M(b)", law_matrix_product), ("a-b=inv(b)+a", law_ominus), ("inverse-two-sided", law_inverse),
            ("identity-two-sided", law_identity), ("associativity", law_assoc), ("point-action", law_point_action),
-           ("boxplus=oplus(Pose(delta))", law_boxplus), ("accessors", law_accessors), ("identity-fresh", law_identity_fresh)]
+           ("boxplus=oplus(Pose(delta))", law_boxplus), ("accessors", law_accessors), ("identity-fresh", law_identity_fresh),
+           ("current-value-after-in-place-edit", law_current_value)]
     return out, dict(to_matrix=law_to_matrix, from_matrix=law_from_matrix)
 
 
@@ -227,5 +254,5 @@ def run(run_, pkg, tier):
                 return run_obligation(pkg, law, hook=hook, divisors=lambda name: True)
             anchor = pkg.method(cls, "__add__")
             tasks.append((key, "C09-group-law", task, "%s:%d" % (anchor._gs_module, anchor.lineno)))
-    run_.floor("group-law obligations", len(tasks) if run_.only is None else 39, 39)
+    run_.floor("group-law obligations", len(tasks) if run_.only is None else 43, 43)
     record(run_, tasks, run_tasks(pkg, tasks))
